@@ -777,6 +777,14 @@ func runCoinswap(seed uint64, nOps int, outPath string) map[string]int {
 			sdk.NewCoins(sdk.NewCoin("stake", pow2(200)), sdk.NewCoin("ausdc", pow2(200)), sdk.NewCoin("abtc", pow2(200)), sdk.NewCoin("ibc/ETH", pow2(200)))); err != nil {
 			panic(err)
 		}
+		// the fee collector and the distribution account hold coins too (collected fees, the community pool): an account
+		// that is no party to a message can be debited only if it has something
+		for _, m := range []string{"fee_collector", "distribution"} {
+			if err := s.w.App.BankKeeper.SendCoins(s.w.Ctx, s.w.Users[0], authtypes.NewModuleAddress(m),
+				sdk.NewCoins(sdk.NewCoin("stake", pow2(150)), sdk.NewCoin("ausdc", pow2(150)), sdk.NewCoin("abtc", pow2(150)), sdk.NewCoin("ibc/ETH", pow2(150)))); err != nil {
+				panic(err)
+			}
+		}
 		s.ms = coinswapkeeper.NewMsgServerImpl(s.w.App.CoinswapKeeper)
 		s.std, _ = s.w.App.CoinswapKeeper.GetStandardDenom(s.w.Ctx)
 		s.t.Line(s.envLine())
